@@ -74,6 +74,7 @@ def ser_case(case):
         code, reason = error_class(r["err"][0])
         out += [cps(code), cps(reason), cps(r["err"][1])]
     out.append("none" if case["disc"] is None else str(case["disc"]))
+    out.append("1" if case.get("wc") else "0")
     out += ser_actions(app["call"])
     k = app["kind"]
     if k[0] == "sized":
@@ -491,6 +492,8 @@ def run_real(case):
         ch.requests = [request]
         if disc is not None and not (0 < disc):
             ch.connected = False
+        if case.get("wc"):
+            ch.will_close = True      # a flush error has marked the connection for closing
         escaped = None
         RAISE_LOG, WRITES_NOW = raise_log, writes
         # run service() under the REAL worker loop (ThreadedTaskDispatcher.handler_thread) in this thread
@@ -604,8 +607,9 @@ def mk_case(call=None, kind=("gen",), steps=(), version="1.1", conn=None, head=F
     app = {"call": [list(a) for a in (call or [])], "kind": list(kind),
            "steps": [{"acts": [list(x) for x in a], "res": list(r)} for a, r in steps],
            "has_close": has_close, "close_exn": close_exn}
+    wc = bool(kw.pop("wc", False))
     app.update(kw)
-    return {"cfg": {"ident": ident, "expose": expose, "logsock": logsock, "date": DATE, "tb": TB_MARK},
+    return {"wc": wc, "cfg": {"ident": ident, "expose": expose, "logsock": logsock, "date": DATE, "tb": TB_MARK},
             "req": {"version": version, "conn": conn, "head": head, "err": err, "cclose": cclose}, "disc": disc, "app": app}
 
 
@@ -943,6 +947,16 @@ def fault_cases(rng, tier):
                                 d = copy.deepcopy(c)
                                 d["disc"] = disc
                                 out.append((("fault", base[0], pos[0], exc, "disc=%s" % disc), d))
+    # a connection already marked for closing (will_close) is not executed at all
+    for bi, base in enumerate(FAULT_BASES):
+        plain = fault_base_case(base)
+        for pos in fault_positions(plain)[:4]:
+            for exc in ("XE", "XB"):
+                d = with_fault(plain, pos, exc) if pos != ("none",) else plain
+                import copy
+                d = copy.deepcopy(d)
+                d["wc"] = True
+                out.append((("will_close", base[0], pos[0], exc), d))
     # parser errors answered by ErrorTask directly
     for cls, body in (("BadRequest", "Invalid header"), ("RequestEntityTooLarge", "exceeds max_body"),
                       ("RequestHeaderFieldsTooLarge", "exceeds max_header"), ("ServerNotImplemented", "Transfer-Encoding requested is not supported."),
@@ -1025,6 +1039,7 @@ def random_script(rng):
     version = rng.choice(VERSIONS + ["1.1", "1.1"])
     conn = rng.choice(CONNS)
     disc = rng.choice([None] * 6 + [0, 1, 2, 3, 4])
+    extra["wc"] = rng.random() < 0.05
     return mk_case(call, kind=kind, steps=steps, version=version, conn=conn, head=rng.random() < 0.15,
                    disc=disc, expose=rng.random() < 0.3, logsock=rng.random() < 0.7,
                    ident=rng.choice(["waitress", "waitress", "", "srv/1.0"]), cclose=rng.random() < 0.15, **extra)
